@@ -226,69 +226,7 @@ fn check<C: Suite>(case: &Case, ctx: &mut Ctx) -> CheckResult {
             if cancelling && cheat_pos.len() < 2 {
                 continue;
             }
-            let mut submitted = f.sess.shares.clone();
-            let mut kinds: Vec<&str> = Vec::new();
-            if cancelling {
-                let mut acc = zero::<C>();
-                for (j, p) in cheat_pos.iter().enumerate() {
-                    let id = signers[*p];
-                    let d = if j + 1 < cheat_pos.len() {
-                        let d = sc_rand_nonzero::<C>(rng.next());
-                        acc = acc + d;
-                        d
-                    } else {
-                        neg::<C>(acc)
-                    };
-                    submitted.insert(id, share_from::<C>(share_scalar::<C>(&f.sess.shares[&id]) + d));
-                }
-                kinds.push("cancelling");
-            } else {
-                let mut j = 0;
-                while j < cheat_pos.len() {
-                    let id = signers[cheat_pos[j]];
-                    let honest = share_scalar::<C>(&f.sess.shares[&id]);
-                    let mut kind = KINDS[rng.below(KINDS.len() as u64) as usize];
-                    if kind == "swapped" && j + 1 >= cheat_pos.len() {
-                        kind = "plus1";
-                    }
-                    if kind == "other-signer" && m < 2 {
-                        kind = "minus1";
-                    }
-                    match kind {
-                        "plus1" => {
-                            submitted.insert(id, share_from::<C>(honest + one::<C>()));
-                        }
-                        "minus1" => {
-                            submitted.insert(id, share_from::<C>(honest - one::<C>()));
-                        }
-                        "negated" => {
-                            submitted.insert(id, share_from::<C>(neg::<C>(honest)));
-                        }
-                        "zero" => {
-                            submitted.insert(id, share_from::<C>(zero::<C>()));
-                        }
-                        "random" => {
-                            submitted.insert(id, share_from::<C>(sc_rand::<C>(rng.next())));
-                        }
-                        "other-signer" => {
-                            let o = signers[(cheat_pos[j] + 1 + rng.below(m as u64 - 1) as usize) % m];
-                            submitted.insert(id, f.sess.shares[&o]);
-                        }
-                        "other-session" => {
-                            submitted.insert(id, f.other.shares[&id]);
-                        }
-                        _ => {
-                            // swapped: this cheater and the next one exchange their shares
-                            let id2 = signers[cheat_pos[j + 1]];
-                            submitted.insert(id, f.sess.shares[&id2]);
-                            submitted.insert(id2, f.sess.shares[&id]);
-                            j += 1;
-                        }
-                    }
-                    kinds.push(kind);
-                    j += 1;
-                }
-            }
+            let (submitted, kinds) = tamper_shares::<C>(&f.sess.shares, &f.other.shares, &signers, &cheat_pos, cancelling, &mut rng);
             // the model
             let mut cheaters: BTreeSet<Id<C>> = BTreeSet::new();
             let mut delta = zero::<C>();
@@ -331,6 +269,98 @@ fn check<C: Suite>(case: &Case, ctx: &mut Ctx) -> CheckResult {
     Ok(())
 }
 
+/// Build the submitted share map for a cheater set (positions in `signers`): a random fault kind per
+/// cheater, or — `cancelling` — random errors that sum to zero.
+pub fn tamper_shares<C: Suite>(
+    honest: &BTreeMap<Id<C>, SignatureShare<C>>,
+    other_session: &BTreeMap<Id<C>, SignatureShare<C>>,
+    signers: &[Id<C>],
+    cheat_pos: &[usize],
+    cancelling: bool,
+    rng: &mut Sm,
+) -> (BTreeMap<Id<C>, SignatureShare<C>>, Vec<&'static str>) {
+    let m = signers.len();
+    let mut submitted = honest.clone();
+    let mut kinds: Vec<&'static str> = Vec::new();
+    if cancelling {
+        let mut acc = zero::<C>();
+        for (j, p) in cheat_pos.iter().enumerate() {
+            let id = signers[*p];
+            let d = if j + 1 < cheat_pos.len() {
+                let d = sc_rand_nonzero::<C>(rng.next());
+                acc = acc + d;
+                d
+            } else {
+                neg::<C>(acc)
+            };
+            submitted.insert(id, share_from::<C>(share_scalar::<C>(&honest[&id]) + d));
+        }
+        kinds.push("cancelling");
+        return (submitted, kinds);
+    }
+    let mut j = 0;
+    while j < cheat_pos.len() {
+        let id = signers[cheat_pos[j]];
+        let h = share_scalar::<C>(&honest[&id]);
+        let mut kind = KINDS[rng.below(KINDS.len() as u64) as usize];
+        if kind == "swapped" && j + 1 >= cheat_pos.len() {
+            kind = "plus1";
+        }
+        if kind == "other-signer" && m < 2 {
+            kind = "minus1";
+        }
+        match kind {
+            "plus1" => {
+                submitted.insert(id, share_from::<C>(h + one::<C>()));
+            }
+            "minus1" => {
+                submitted.insert(id, share_from::<C>(h - one::<C>()));
+            }
+            "negated" => {
+                submitted.insert(id, share_from::<C>(neg::<C>(h)));
+            }
+            "zero" => {
+                submitted.insert(id, share_from::<C>(zero::<C>()));
+            }
+            "random" => {
+                submitted.insert(id, share_from::<C>(sc_rand::<C>(rng.next())));
+            }
+            "other-signer" => {
+                let o = signers[(cheat_pos[j] + 1 + rng.below(m as u64 - 1) as usize) % m];
+                submitted.insert(id, honest[&o]);
+            }
+            "other-session" => {
+                submitted.insert(id, other_session[&id]);
+            }
+            _ => {
+                // swapped: this cheater and the next one exchange their shares
+                let id2 = signers[cheat_pos[j + 1]];
+                submitted.insert(id, honest[&id2]);
+                submitted.insert(id2, honest[&id]);
+                j += 1;
+            }
+        }
+        kinds.push(kind);
+        j += 1;
+    }
+    (submitted, kinds)
+}
+
+/// the reference model on scalars: (cheaters, delta == 0)
+pub fn model<C: Suite>(honest: &BTreeMap<Id<C>, SignatureShare<C>>, submitted: &BTreeMap<Id<C>, SignatureShare<C>>) -> (BTreeSet<Id<C>>, bool) {
+    let mut cheaters = BTreeSet::new();
+    let mut delta = zero::<C>();
+    for (id, s) in submitted {
+        let s = share_scalar::<C>(s);
+        let h = share_scalar::<C>(&honest[id]);
+        if s != h {
+            cheaters.insert(*id);
+            delta = delta + (s - h);
+        }
+    }
+    (cheaters, delta == zero::<C>())
+}
+
 /// compare the three aggregation modes and the standalone share verification with the model
 pub fn judge<C: Suite>(
     ctx: &mut Ctx,
@@ -343,9 +373,40 @@ pub fn judge<C: Suite>(
     desc: &str,
     p: &str,
 ) -> CheckResult {
+    judge_with::<C>(
+        ctx,
+        package,
+        submitted,
+        pubkeys,
+        &|mode| frost::aggregate_custom(package, submitted, pubkeys, mode),
+        &|| frost::aggregate(package, submitted, pubkeys),
+        cheaters,
+        delta_zero,
+        msg,
+        desc,
+        p,
+    )
+}
+
+/// like `judge`, but the aggregation entry points are supplied by the caller (re-randomized / tweaked
+/// variants); `pubkeys` is the *effective* public key package (randomized / tweaked) under which the
+/// result must verify and against which standalone share verification is run.
+pub fn judge_with<C: Suite>(
+    ctx: &mut Ctx,
+    package: &SigningPackage<C>,
+    submitted: &BTreeMap<Id<C>, SignatureShare<C>>,
+    pubkeys: &PublicKeyPackage<C>,
+    agg: &dyn Fn(frost::CheaterDetection) -> Result<frost::Signature<C>, Error<C>>,
+    agg_default: &dyn Fn() -> Result<frost::Signature<C>, Error<C>>,
+    cheaters: &BTreeSet<Id<C>>,
+    delta_zero: bool,
+    msg: &[u8],
+    desc: &str,
+    p: &str,
+) -> CheckResult {
     let vk = *pubkeys.verifying_key();
     for (name, mode) in modes() {
-        let r = frost::aggregate_custom(package, submitted, pubkeys, mode);
+        let r = agg(mode);
         // invariant over all cases: Ok(sig) => sig verifies
         if let Ok(sig) = &r {
             let lib_ok = vk.verify(msg, sig).is_ok();
@@ -392,7 +453,7 @@ pub fn judge<C: Suite>(
         }
     }
     // the default entry point behaves as FirstCheater
-    let r = frost::aggregate(package, submitted, pubkeys);
+    let r = agg_default();
     if delta_zero {
         ensure!(ctx, r.is_ok(), &format!("{p}/valid-sum-rejected"), "aggregate failed although the shares sum to the valid response ({desc})");
     } else {
